@@ -25,6 +25,9 @@ def mk_settings(codes):
             out.append(AnsiFormat[c[5:]])
         elif c.startswith('int:'):
             out.append(int(c[4:]))
+        elif c.startswith('nest:'):
+            from .env import AnsiFormat
+            out.append([[AnsiFormat[c[5:]]]])
         else:
             out.append(AnsiSetting(c))
     return out
@@ -45,6 +48,12 @@ def seed_value(seed):
         return v
     if kind == 'parse':
         return AnsiString(seed[1])
+    if kind == 'parsed':
+        # a value produced by the parser from interleaved SGR sequences (its change points carry stop and start
+        # markers at the same index, unlike API-built values)
+        t = seed[1]
+        raw = '\x1b[1;31m' + t[:1] + '\x1b[22m' + t[1:2] + '\x1b[0;4;38;5;99m' + t[2:3] + '\x1b[39m' + t[3:] + '\x1b[m'
+        return AnsiString(raw)
     if kind == 'ctor':
         return AnsiString(seed[1], *[mk_settings(c) for c in seed[2:]])
     if kind == 'str':
@@ -136,3 +145,38 @@ def build(history):
 
 def show(history):
     return ' . '.join(repr(x) for x in history)
+
+
+def codes_of_spec(spec):
+    """The setting texts a settings spec of the operation language stands for (what ansi_settings_at reports)."""
+    from .env import AnsiFormat
+    if spec.startswith('['):
+        return [spec[1:]]
+    if spec.startswith('enum:') or spec.startswith('nest:'):
+        return [str(x) for x in AnsiFormat[spec[5:]].ansi_settings]
+    if spec.startswith('int:'):
+        return [spec[4:]]
+    if spec.startswith('name:'):
+        out = []
+        for n in spec[5:].split(';'):
+            out.extend(str(x) for x in AnsiFormat[n.upper().replace(' ', '_').replace('-', '_')].ansi_settings)
+        return out
+    return [spec]
+
+
+def expand_codes(S):
+    out = []
+    for x in S:
+        out.extend(codes_of_spec(x))
+    return out
+
+
+def spell(code, kind):
+    """Another documented spelling of a one-code setting: kind in enum / name / nest / int."""
+    from .env import AnsiFormat
+    if kind == 'int':
+        return 'int:' + code
+    for name, m in AnsiFormat.__members__.items():
+        if [str(x) for x in m.ansi_settings] == [code]:
+            return {'enum': 'enum:' + name, 'nest': 'nest:' + name, 'name': 'name:' + name.lower()}[kind]
+    raise HarnessError('no AnsiFormat member for code %s' % code)
